@@ -261,6 +261,18 @@ class Ex:
         for sc in self._scopes:
             sc.append(fact)
 
+    def lemma(self, name, formula):
+        """A valid fact about the symbols it mentions: it becomes an obligation of its own (proved
+        with an empty path condition) and is then available as an axiom on this path."""
+        key = ("lemma", formula.get_id())
+        if key in self._axiom_keys:
+            return
+        self._keep.append(formula)
+        o = Obl(name, [], formula, "lemma", {})
+        o.axioms = []
+        self.obls.append(o)
+        self.define(formula, key=key)
+
     def push_scope(self, guard):
         self.solver.push()
         self.solver.add(guard)
@@ -1046,7 +1058,10 @@ class Ex:
         return lift(e.value)
 
     def e_Name(self, e):
-        return self.lookup_name(e.id, e)
+        v = self.lookup_name(e.id, e)
+        if self.old_mode and isinstance(v, VBox) and self.old is not None and id(v) in self.old:
+            return VBox(v.kind, self.old[id(v)], v.name + "@old")     # read-only view of the entry content
+        return v
 
     def e_Tuple(self, e):
         return VTuple([self.eval(x) for x in e.elts])
@@ -1138,7 +1153,7 @@ class Ex:
 
     def deopt(self, v, node=None):
         if isinstance(v, VOpt):
-            if self.branch(v.isnone):
+            if not self.spec_mode and self.branch(v.isnone):     # specifications are total
                 self.raise_(TypeError, node=node)
             return v.val
         return v
@@ -1259,8 +1274,7 @@ class Ex:
             if self.spec_mode:
                 # specifications are total: e.attr on a possibly-None value denotes the attribute
                 # of the underlying value (unspecified when it is None)
-                if self.decided(obj.isnone) is True:
-                    raise Unsupported("specification dereferences None: .%s" % name)
+                pass
             elif self.branch(obj.isnone):
                 self.raise_(AttributeError, node=node)
             obj = obj.val
@@ -1366,7 +1380,10 @@ class Ex:
                 # old(x) for a parameter name: the entry value of the variable
                 if isinstance(e.args[0], ast.Name) and self.old is not None and \
                         ("var:" + e.args[0].id) in self.old:
-                    return self.old["var:" + e.args[0].id]
+                    v = self.old["var:" + e.args[0].id]
+                    if isinstance(v, VBox) and id(v) in self.old:
+                        return VBox(v.kind, self.old[id(v)], v.name + "@old")
+                    return v
                 return self.eval(e.args[0])
             finally:
                 self.old_mode = prev
